@@ -13,7 +13,7 @@ for sid in sorted(os.listdir(os.path.join(VERIF, "seeded"))):
         continue
     meta = json.load(open(mp))
     s = meta["confirmed"]["test_suite_with_patch"]
-    m = re.search(r"cli \(attempt \d+\): (.*)$", s.strip())
+    m = re.search(r"cli \((?:re-run at idle, )?attempt \d+\): ([^()]*)$", s.strip())
     if m and "failed" not in m.group(1) and "No such file" not in s:
         continue
     wt = subprocess.run(["mktemp", "-d", "/tmp/cliwt.XXXXXX"], capture_output=True, text=True).stdout.strip()
@@ -35,7 +35,7 @@ for sid in sorted(os.listdir(os.path.join(VERIF, "seeded"))):
             res = p.stdout.strip().splitlines()[-1] if p.stdout.strip() else "no output"
             if "failed" not in res:
                 break
-        base = re.sub(r"\s*cli \(attempt \d+\):.*$", "", s.strip())
+        base = re.sub(r"\s*cli \((?:re-run at idle, )?attempt \d+\):.*$", "", s.strip())
         base = re.sub(r"/verif/tools/run_suite.sh: line \d+: ", "", base).replace(": No such file or directory", "")
         meta["confirmed"]["test_suite_with_patch"] = f"{base} cli (re-run at idle, attempt {attempt}): {res}"
         json.dump(meta, open(mp, "w"), indent=1)
